@@ -46,6 +46,11 @@ def get_attr(I, st, base, attr, node):
             raise OutOfSubset(f"attribute of unknown class {base.name}")
         r = class_attr(I, st, base.pyclass, attr, None, node)
         if r is _MISSING:
+            if isinstance(base.pyclass, type) and issubclass(base.pyclass, BaseException) and st.env.get("__active_exc__") is base:
+                # instance data of the exception caught by the enclosing `except ... as e` (set in __init__, not visible on the class): opaque
+                import z3 as _z3
+                from .values import StrSort as _S, fresh_name as _fn
+                return _z3.Const(_fn(f"exc.{attr}"), _S)
             raise SymRaise(ClassVal("AttributeError", AttributeError), st,
                            f"type object '{base.name}' has no attribute '{attr}'", site)
         return r
@@ -86,6 +91,12 @@ def class_attr(I, st, pyclass, attr, recv, node):
         return I.ctx.func_from_real(raw, recv)
     if isinstance(raw, property):
         if recv is None or raw.fget is None:
+            if isinstance(pyclass, type) and issubclass(pyclass, BaseException):
+                # `except X as e: ... e.stdout ...`: the caught exception is represented by its class; a data attribute of it is an opaque value
+                # (it only ever feeds a message)
+                import z3 as _z3
+                from .values import StrSort as _S, fresh_name as _fn
+                return _z3.Const(_fn(f"exc.{attr}"), _S)
             raise OutOfSubset(f"property {pyclass.__name__}.{attr}")
         from .calls import call_function
         return call_function(I, st, I.ctx.func_from_real(raw.fget, recv), [], {}, node)
